@@ -1,6 +1,8 @@
 from vlib.common import nt_len, NOTE, SCHED_TRUSTED
 
 _COQ = ["Common/ListLemmas.v", "Keyed/Model.v", "Keyed/Spec.v", "Keyed/Proofs.v"]
+_MON = ["Keyed/ProofsCancel.v", "Keyed/ProofsWalk.v", "Keyed/ProofsMono.v", "Keyed/ProofsData.v", "Keyed/ProofsKeys.v", "Keyed/ProofsRoot.v",
+        "Keyed/ProofsMon.v", "Keyed/ProofsMon2.v", "Keyed/ProofsInc.v", "Keyed/ProofsMonAll.v"]
 _RULE = ("implementation-driven random gate-level histories of keyed.Keyed and keyed.KeyedRefCount over 2-3 keys (SetKey/RemoveKey/"
          "SyncKeys with duplicates/GetKey/GetKeys, AddKeyRef/Release in two segments (a third one if the call is found outside rc.mtx before "
          "Keyed.RemoveKey: gate 5, then raced against AddKeyRef of the same key)/KeyedRefCount.RemoveKey, Reset/Restart of one or all "
@@ -65,8 +67,8 @@ _ASSUME = ["Go map iteration order is unobservable: the model iterates in key or
 
 _TECH = "Coq inductive invariants and refinement over a gate-level interleaving model + schedule-controlled differential correspondence (synctest, fake clock) against the Go code"
 
-_C06 = _COQ + ["Keyed/AbsSpec.v", "Keyed/ProofsC06.v", "Keyed/ProofsTm.v", "Keyed/ProofsC06b.v", "Keyed/Props_C06.v"]
-_C07 = _COQ + ["Keyed/ProofsC07.v", "Keyed/ProofsCancel.v", "Keyed/Props_C07.v"]
+_C06 = _COQ + ["Keyed/AbsSpec.v", "Keyed/ProofsC06.v", "Keyed/ProofsTm.v", "Keyed/ProofsC06b.v", "Keyed/ProofsC07.v"] + _MON + ["Keyed/Props_C06.v"]
+_C07 = _COQ + ["Keyed/AbsSpec.v", "Keyed/ProofsC06.v", "Keyed/ProofsTm.v", "Keyed/ProofsC07.v"] + _MON + ["Keyed/Props_C07.v"]
 
 PROPS = {
     "C06": dict(pid=6, coq=_C06, props_file="Keyed/Props_C06.v", models=_MODELS, trusted=_TRUSTED, assumptions=_ASSUME,
@@ -83,7 +85,9 @@ PROPS = {
                          "histories. Model tied to the code by scheduled differential correspondence; the reference machine itself is the monitor "
                          "state evaluated on the implementation's observations (key set after every event, data, return values, references); a "
                          "schedule point before Keyed.RemoveKey takes k.mtx (parked only when rc.mtx is free, which the verified code never "
-                         "is there) exposes a Release whose removal is not atomic with its reference bookkeeping.",
+                         "is there) exposes a Release whose removal is not atomic with its reference bookkeeping. Monitors tied to the model for ALL event "
+                         "lists and configurations (model_satisfies_monitors, partial): on the model's own observations clause 6/5 is never false and every "
+                         "observation parses (6/9); 6/1-6/4 are not yet proved in that form (the refinement theorems and the bounded cross-check cover them).",
                     note=NOTE + "Interpretation: a removal request for a key whose removal is already pending changes nothing, even if the key's "
                                 "routine has failed meanwhile (the code checks the pending removal first); 'failed' = the current record's recorded "
                                 "exit was an error and nothing was started since. ResetRoutine on a key pending removal silently drops the removal "
@@ -103,9 +107,15 @@ PROPS = {
                          "context, nothing spawned for an absent key or without context, a due retry is parked or has spawned; and against the "
                          "request-level reference key set (what the caller asked for): a key that the requests have removed - at once, or its "
                          "release delay has run out and its removal callback is not merely parked - has no in-user instance with a live "
-                         "context (7/6) and gets no new instance (7/7).",
+                         "context (7/6) and gets no new instance (7/7). Root contexts cancelled by their owner (not through the container) are modelled: "
+                         "an instance whose root is cancelled is cancelled in every reachable state, the container drops a cancelled root at its next "
+                         "SyncKeys/ResetRoutine/RestartRoutine call and starts nothing there. Monitors tied to the model for ALL event lists and "
+                         "configurations (model_satisfies_monitors, partial): on the model's own observations clauses 7/1 7/2 7/3 7/4 are never false "
+                         "(the monitors' incarnations name the model's lineages; a live instance was started under the root the container holds); 7/5 "
+                         "7/6 7/7 are not yet proved in that form.",
                     note=NOTE + "Retry liveness is stated per step (fires when due; callback restarts) and monitored on every trace; 'retried while "
-                                "wanted' holds for intervals in which the container context stays set (ClearContext cancels the obligation). A stale "
+                                "wanted' holds for intervals in which the container holds a context that its owner has not cancelled (ClearContext cancels the "
+                                "obligation; under a cancelled root a run would end at once). A stale "
                                 "retry callback (fired before a manual restart, run after it) restarts the routine early, also after a success - "
                                 "the keyed analogue of routine's D20; not covered by C07's text, reported as an observation.",
                     technique=_TECH)),
